@@ -167,7 +167,7 @@ fn da_default_layer_bad() {
     core::mem::forget(l);
 }
 
-// @harness name=da_noop prop=C04,C06 tier=quick timeout=1500
+// @harness name=da_noop prop=C04,C06,C05 tier=quick timeout=1500
 // @encodes Layout::do_action (NoOp arm)
 // @inst Layout<3, 2, u8>
 // @bounds constant action NoOp; pre-state as da_keycode
@@ -200,7 +200,7 @@ fn da_custom() {
     core::mem::forget(l);
 }
 
-// @harness name=da_sequence prop=C08,C06 tier=quick timeout=1500
+// @harness name=da_sequence prop=C08,C06,C05 tier=quick timeout=1500
 // @encodes Layout::do_action (Sequence arm)
 // @inst Layout<3, 2, u8>
 // @bounds constant macro action; pre-state as da_keycode
